@@ -80,6 +80,17 @@ def run(tier):
                         rows = vlib.read_ndjson(tp)
                         first = rows[-1]["case"] + 1
                         continue
+                    crash = pairs.real_crash(p.stderr or "")
+                    if crash is not None:
+                        # the code under test killed the process (a panic in one of Validate's goroutines): behaviour of
+                        # the real code on the case after the last one recorded; carry on behind it
+                        rows = vlib.read_ndjson(tp)
+                        at = (rows[-1]["case"] + 1) if rows else first
+                        run.violation({"crash": True, "site": crash["site"]},
+                                      {"case": at, "panic": crash["panic"], "stack": crash["stack"], "seed": run.seed},
+                                      "the real code crashed the process (%s at %s) while Validate ran case %d" % (crash["panic"][:160], crash["site"], at))
+                        first = at + 1
+                        continue
                     raise vlib.Inconclusive("c16 driver failed: rc=%d %s" % (p.returncode, (p.stderr or "")[:600]))
                 return outs
             jobs.append(job)
